@@ -5,6 +5,7 @@ package c09
 import (
 	"encoding/json"
 	"fmt"
+	"sync"
 
 	"gopkg.in/typ.v4/sync2"
 	"verif/harness/core"
@@ -348,7 +349,61 @@ func has(s []int, x int) bool {
 	return false
 }
 
+// stress: uncontrolled goroutines; a plain (non-atomic) counter per key is written inside the write-locked
+// section and read inside the read-locked section, so the race detector reports any failure of per-key exclusion.
+func stress(c *core.Ctx) {
+	for round := 0; round < 10; round++ {
+		c.Begin(Case{Kind: "race-stress"})
+		var km sync2.KeyedMutex[int]
+		var rw sync2.KeyedRWMutex[int]
+		var cnt, cntRW [3]int
+		var wg sync.WaitGroup
+		for g := 0; g < 8; g++ {
+			wg.Add(1)
+			rng := core.NewRand(c.Seed*1000 + uint64(round*16+g))
+			go func() {
+				defer wg.Done()
+				sink := 0
+				for i := 0; i < 600; i++ {
+					k := rng.Intn(3)
+					switch rng.Intn(6) {
+					case 0, 1:
+						km.LockKey(k)
+						cnt[k]++
+						km.UnlockKey(k)
+					case 2:
+						if km.TryLockKey(k) {
+							cnt[k]++
+							km.UnlockKey(k)
+						}
+					case 3:
+						rw.LockKey(k)
+						cntRW[k]++
+						rw.UnlockKey(k)
+					case 4:
+						rw.RLockKey(k)
+						sink += cntRW[k]
+						rw.RUnlockKey(k)
+					default:
+						if rw.TryRLockKey(k) {
+							sink += cntRW[k]
+							rw.RUnlockKey(k)
+						}
+					}
+				}
+				_ = sink
+			}()
+		}
+		wg.Wait()
+		c.Count("race_stress_rounds")
+	}
+}
+
 func run(c *core.Ctx) {
+	if c.Tier == "race" {
+		stress(c)
+		return
+	}
 	L := func(how string, k int, inner ...Block) Block { return Block{How: how, K: k, Inner: inner} }
 	// 1. systematic: first simultaneous use of a never-seen key, all schedules with <= P pre-emptions
 	battery := []Case{
